@@ -113,6 +113,7 @@ class SmallBufferAllocator {
       // attempt "acquires" the lock while its holder (a thread growing backingStore) still has it.
       allocId = 0;
     }
+    DISPENSO_VERIF_POINT(::dispenso::verif::kSbaDiagHoldsLock);
     size_t bytes = kMallocBytes * globals.backingStore.size();
     lock.store(0, std::memory_order_release);
     return bytes;
